@@ -210,7 +210,8 @@ def _one(args):
                          "violated": re.findall(r"Invariant (\S+) is violated", out)
                          + (["Termination"] if "Temporal properties were violated" in out else [])
                          + (["deadlock"] if "Deadlock reached" in out else []),
-                         "ok": "No error has been found" in out, "wall": round(wall, 1)}
+                         "ok": "No error has been found" in out, "wall": round(wall, 1),
+                         "timeout": out.rstrip().endswith("TIMEOUT")}
             outs = set()
             for line in out.splitlines():
                 if line.startswith('"OUT '):
